@@ -36,7 +36,7 @@ _put(["basis"], ["inner_product", "norm"], "fresh")
 _put(["multivariate"], ["center"], "multi_copy_argvals")
 _put(["multivariate"], ["standardize"], "multi_copy_argvals", 0)
 _put(["multivariate"], ["standardize"], "multi_share_argvals", 1)
-_put(["multivariate"], ["mean", "normalize", "smooth"], "multi_share_argvals")
+_put(["multivariate"], ["mean", "normalize", "smooth", "concatenate"], "multi_share_argvals")
 _put(["multivariate"], ["covariance"], "multi_covariance")
 _put(["multivariate"], ["rescale"], "multi_rescale")
 _put(["multivariate"], ["to_basis"], "multi_to_basis")
